@@ -191,7 +191,7 @@ static std::string first_carquet_frame(const std::string& err, std::string* kind
         size_t sp = line.find(' ');
         std::string fn = line.substr(0, sp);
         if (first_any.empty()) first_any = fn;
-        if (line.find("/repo/src/") != std::string::npos || line.find("/src/") != std::string::npos) {
+        if (line.find("/repo/src/") != std::string::npos || line.find("/repo/include/") != std::string::npos) {
             if (fn.find("__wrap_") != 0) return fn;
         }
         q = e == std::string::npos ? err.size() : e;
